@@ -277,6 +277,9 @@ def r11c(ctx):
     ok = ok and len(loops) == 1 and u(loops[0].iter) == "self._counters.items()" and u(wi[0].args[1]) == [e.id for e in loops[0].target.elts][1]
     ctx.check(ok, "R11c", f"{W}._preset_all_indices", "every table's index entry is preset to (current counter, 0)", u(pf.body[-1])[:150],
               key_detail="preset shape")
+    exits = [n for n in ast.walk(pf) if isinstance(n, (ast.Return, ast.Break, ast.Raise))]
+    ctx.check(not exits, "R11c", f"{W}._preset_all_indices", "the preset runs for every event: no return / break / raise before or inside the loop (a row left over from a rejected "
+              "add must be reset too)", "; ".join(f"line {n.lineno}: {u(n)}" for n in exits)[:160], key_detail="preset unconditional")
     # _write_indices targets the row of the current event counter
     wf = repo.member(W, "_write_indices")
     txt = u(wf)
@@ -580,6 +583,8 @@ def run(ctx):
 
 SELFTEST = {
     "faults": [
+        {"name": "preset skipped when the row already exists", "file": "pyrex/io.py", "old": "        for key, count in self._counters.items():\n            if key==\"indices\":",
+         "new": "        if self._file[self._data_locs['indices']].shape[0]>self._counters['indices']:\n            return\n        for key, count in self._counters.items():\n            if key==\"indices\":", "rule": "R11c"},
         {"name": "antenna flags written straight into column i (no key search)", "file": "pyrex/io.py",
          "old": "                    for k, match in enumerate(extra_data.attrs['keys']):\n                        if \"antenna_\"+str(i)==self._decode_attr(match):\n                            for j, wave in enumerate(ant.all_waveforms):\n                                extra_data[start_index+j, k] = ant.trigger(wave)",
          "new": "                    for j, wave in enumerate(ant.all_waveforms):\n                        extra_data[start_index+j, i] = ant.trigger(wave)", "rule": "R11e"},
